@@ -65,6 +65,52 @@ PROPS = {
         trusted=["simulated kernel harness/src/simk.rs (twin of the kernel contract K1-K8)",
                  "a10 verif hooks A/B (src/verif.rs)"],
     ),
+    "C10": dict(
+        driver="C10",
+        model="Model/Composite.v",
+        run_fn="run_ccase",
+        theorems=["C10_write_all_exact", "C10_write_all_vectored_exact", "C10_send_all_exact",
+                  "C10_send_all_vectored_exact",
+                  "C10_read_n_exact_any_capacity", "C10_read_n_vectored_exact_any_capacity",
+                  "C10_recv_n_exact_any_capacity", "C10_recv_n_vectored_exact_any_capacity",
+                  "C10_read_n_exact", "C10_read_n_vectored_exact", "C10_recv_n_exact", "C10_recv_n_vectored_exact",
+                  "C10_read_n_h16_refuted", "C10_read_n_pool_h16_refuted", "C10_read_n_vectored_h16_refuted",
+                  "C10_recv_n_h16_refuted", "C10_recv_n_vectored_h16_refuted", "C10_offset_sentinel_refuted"],
+        rule="one splitmix64 stream per case (VERIF_SEED, index) on the simulated kernel: operation in {write_all, "
+             "write_all_vectored, send_all, send_all_vectored, read_n, read_n_vectored, recv_n, recv_n_vectored} "
+             "(vectored ones twice as often); 1..8 buffers as [Vec<u8>; N], [&'static [u8]; N] or tuples mixing both "
+             "(reads: arrays and tuples of Vec<u8> with a random initialised prefix, or a ReadBufPool buffer of "
+             "1..100 bytes for read_n/recv_n); empty buffers first, last, alternating or at random, total >= 1; "
+             "lengths 1, 2, <= 16, <= 48 or <= 5000, one write case in ten with static buffers of 2^31..2^32-1 bytes "
+             "(a never-touched 4 GiB mapping); n within the spare capacity, equal to it, beyond it (H16) or near "
+             "usize::MAX; offset none or .at/.from with boundary (0, 1, 4095, 2^31-1, 2^31, 2^32-1, 2^32, 2^40+7, "
+             "2^62+12345) or random values below 2^62; every subset of the SendFlag/RecvFlag constants; .zc() before "
+             "or after .flags(); .extract() on half of the writes; the kernel's result for each request drawn when "
+             "the request arrives: 0, an errno (EIO, EPIPE, ENOSPC, ECONNRESET, EAGAIN), EINTR/ECANCELED (restart), "
+             "never completing, 1, everything asked for, one less, or random (small steps / uniform / half); "
+             "zero-copy sends complete with (res, F_MORE) then (0, F_NOTIF), errors with one or two CQEs; reads store "
+             "a position-dependent byte stream; non-trivial = at least one completed transfer; distinct by the Coq "
+             "case term. Thorough: 40 000 cases and 40 rounds of write_all_vectored / read_n on real pipes of 4096 "
+             "bytes (F_SETPIPE_SZ) comparing the bytes received",
+        assumptions=["buffers shorter than 2^32 bytes (hypothesis wf: the Buf traits expose u32 lengths; larger "
+                     "buffers are C14's finding H17) and a total length below 2^64 (total_fits)",
+                     "kernel results within what the request asked for: 0 <= r_i <= requested_i (hypothesis within; "
+                     "Linux never transfers more than requested); negative results outside the theorems are "
+                     "covered by the model tie only (EINTR/ECANCELED restart, other errnos returned)",
+                     "positional offsets: the running offset stays below u64::MAX and does not wrap (hypothesis "
+                     "offset_ok; u64::MAX is a10's marker for 'no offset' - witness C10_offset_sentinel_refuted; "
+                     "Linux refuses offsets of 2^63 and above for ordinary files, the harness stays below 2^63)",
+                     "reads: 'UnexpectedEof only if the stream ended' is proved under the named hypothesis "
+                     "spare_covers (total spare capacity >= n); without it the clause fails: known finding H16, "
+                     "witnesses C10_*_h16_refuted; everything else is proved for any capacity "
+                     "(C10_*_exact_any_capacity)",
+                     "EINVAL is not among the scripted errors (a10 maps it to ErrorKind::Unsupported)",
+                     "the kernel stores read data front to back through the pointers it was given and selects "
+                     "provided buffers from the registered ring (simulated kernel contract K5)"],
+        trusted=["simulated kernel harness/src/simk.rs (twin of the kernel contract K1-K8)",
+                 "a10 verif hook A (src/verif.rs)",
+                 "decoding of iovec/msghdr from the SQE in harness/src/props/c10.rs (layouts asserted against libc)"],
+    ),
     "C14": dict(
         driver="C14",
         model="Model/BufTraits.v",
